@@ -112,7 +112,7 @@ async fn verif_model_header_ex_retries() {
             let new: Vec<(u64, PeerId, u64)> = sender.sent[handled..].to_vec();
             handled = sender.sent.len();
             for (id, peer, _origin) in new {
-                if rng.below(2) == 0 { handler.on_failure(peer, id, OutboundFailure::ConnectionClosed); }
+                if rng.below(2) == 0 { handler.on_failure(peer, id, match rng.below(4) { 0 => OutboundFailure::DialFailure, 1 => OutboundFailure::Timeout, 2 => OutboundFailure::UnsupportedProtocols, _ => OutboundFailure::ConnectionClosed }); }
                 else {
                     handler.on_response_received(peer, id, vec![HeaderResponse { body: vec![], status_code: StatusCode::NotFound.into() }]);
                     // let the decoding task run and the handler pick up its result
